@@ -202,17 +202,22 @@ CLAIMED.update({
 
 CLAIMED.update({
     'C18': dict(
-        text='Lean 4 model of untar_file over an abstract file-system tree: member-name resolution the way '
-             'tarfile.data_filter does it (realpath with symbolic links followed), the literal makedirs walk, member '
-             'kinds (file, dir, sym, hard, special); theorems: an accepted member resolves inside the destination, an '
-             'accepted link target resolves inside it, special files are always refused, any name with enough leading '
-             '".." is refused, extraction stops at the first refused member, a benign file is extracted. Tied by '
-             'extracting generated archives (escapes by "..", absolute names, links planted by earlier members, FIFOs) '
-             'with the real untar_file in a sandbox and comparing the resulting tree and error family with the model; '
-             'the oracle checks that nothing outside the destination changed.',
-        note=COMMON_NOTE + 'PARTIAL: the kernel path walk and tarfile library are modelled, not verified; archives whose '
-             'hard-link members fall back to copying are reported by the model as unmodelled and checked by the oracle only.',
-        technique='Lean 4 proof on an abstract file-system model of extraction + sandboxed differential extraction',
+        text='Lean 4 model of untar_file over a file-system tree with symbolic links: the ".." guard, member-name resolution the '
+             'way tarfile.data_filter does it (lexical realpath following links), the kernel\'s own path walk, os.makedirs on '
+             'the literal parent path, and every member kind; at EVERY site where an entry is created or replaced the model '
+             'computes the physical path the kernel would use, and a path not strictly below the install directory is the '
+             'verdict `escaped`. Theorems for all archives and all trees (any members, names, link targets, links planted by '
+             'earlier members or standing there before): untar_never_escapes / member_never_escapes (`escaped` is unreachable), '
+             'tree_stays_closed, dotdot_refused, without_guard_a_directory_is_made_outside (the repaired defect D29 as a '
+             'theorem), accepted member / link targets resolve inside, special files refused, extraction stops at the first '
+             'refused member, a benign file is extracted. Tied by extracting generated archives with the real untar_file in a '
+             'sandbox and comparing the resulting tree and error family with the model; the oracle checks that nothing '
+             'outside the destination changed.',
+        note=COMMON_NOTE + 'PARTIAL: the kernel path walk, os.makedirs and the tarfile library are modelled, not verified '
+             '(the correspondence is the tie); archives whose hard-link members fall back to copying are reported by the model '
+             'as unmodelled and checked by the oracle only; extraction of benign members with their content is proved for '
+             'one-component names only and otherwise checked by the oracle.',
+        technique='Lean 4 proof (invariant over the makedirs walk, kernel-walk vs realpath refinement) on a file-system model of extraction + sandboxed differential extraction',
         design_ref='DESIGN.md §6 C18'),
 })
 
